@@ -363,10 +363,92 @@ pub fn jump_into_program(kind: usize, in_sub: bool, twice: bool) -> Prog {
 }
 
 // ---------------------------------------------------------------------------
+// (2c) Jumps across scopes: a label belongs to the module-level code or to one subprogram; a GOTO, GOSUB
+// or RETURN label that names a label of another scope must be rejected by the checker (Label not defined).
+// ---------------------------------------------------------------------------
+
+pub const SCOPE_DIRS: [&str; 3] = ["from a SUB to a module-level label", "from the module level to a label inside a SUB", "from one SUB to a label inside another SUB"];
+pub const SCOPE_JUMPS: [&str; 3] = ["GOTO", "GOSUB", "RETURN label"];
+
+/// Returns the program and the statement id of the offending jump.
+pub fn cross_scope_program(dir: usize, jump: usize) -> (Prog, Id) {
+    let mut b = B::new();
+    let mk_jump = |b: &mut B, target: &str| -> (Vec<Stmt>, Id) {
+        match jump {
+            0 => {
+                let s = b.s(K::Goto(target.into()));
+                let id = s.id;
+                (vec![s], id)
+            }
+            1 => {
+                let s = b.s(K::Gosub(target.into()));
+                let id = s.id;
+                (vec![s], id)
+            }
+            _ => {
+                // a local GOSUB whose routine returns to the foreign label
+                let g = b.s(K::Gosub("Loc".into()));
+                let skip = b.s(K::Goto("Past".into()));
+                let l = b.s(K::Label("Loc".into()));
+                let r = b.s(K::Return(Some(target.into())));
+                let id = r.id;
+                let p = b.s(K::Label("Past".into()));
+                (vec![g, skip, l, r, p], id)
+            }
+        }
+    };
+    let arr = b.s(K::Dim { shared: false, redim: false, vars: vec![DimVar { name: "A%".into(), ty: None, dims: vec![(None, num(2))] }] });
+    let mut main = vec![arr, b.print(vec![st("start")])];
+    let mut subs = vec![];
+    let bad;
+    match dir {
+        0 => {
+            main.push(b.s(K::Call("Work".into(), vec![])));
+            main.push(b.print(vec![st("back")]));
+            main.push(b.s(K::End));
+            main.push(b.s(K::Label("Target".into())));
+            main.push(b.print(vec![st("target")]));
+            main.push(b.assign(Expr::Index("A%".into(), vec![num(1)]), num(1)));
+            main.push(b.s(K::End));
+            let mut body = vec![b.print(vec![st("work")])];
+            let (j, id) = mk_jump(&mut b, "Target");
+            bad = id;
+            body.extend(j);
+            let id = b.id();
+            subs.push(SubDef { id, name: "Work".into(), is_function: false, params: vec![], body, is_static: false });
+        }
+        1 => {
+            let (j, id) = mk_jump(&mut b, "Target");
+            bad = id;
+            main.extend(j);
+            main.push(b.print(vec![st("after")]));
+            main.push(b.s(K::End));
+            let body = vec![b.print(vec![st("work")]), b.s(K::Label("Target".into())), b.print(vec![st("target")])];
+            let id = b.id();
+            subs.push(SubDef { id, name: "Work".into(), is_function: false, params: vec![], body, is_static: false });
+        }
+        _ => {
+            main.push(b.s(K::Call("First".into(), vec![])));
+            main.push(b.print(vec![st("back")]));
+            let mut body = vec![b.print(vec![st("first")])];
+            let (j, id) = mk_jump(&mut b, "Target");
+            bad = id;
+            body.extend(j);
+            let id = b.id();
+            subs.push(SubDef { id, name: "First".into(), is_function: false, params: vec![], body, is_static: false });
+            let body = vec![b.print(vec![st("second")]), b.s(K::Label("Target".into())), b.print(vec![st("target")])];
+            let id = b.id();
+            subs.push(SubDef { id, name: "Second".into(), is_function: false, params: vec![], body, is_static: false });
+        }
+    }
+    (Prog { main, subs, declare: true, ..Default::default() }, bad)
+}
+
+// ---------------------------------------------------------------------------
 // (3) One fault
 // ---------------------------------------------------------------------------
 
-pub const FAULTS: [&str; 8] = [
+pub const FAULTS: [&str; 9] = [
     "division by zero",
     "integer overflow",
     "subscript out of range",
@@ -375,6 +457,7 @@ pub const FAULTS: [&str; 8] = [
     "error inside a called SUB",
     "error inside a called FUNCTION",
     "RETURN without GOSUB",
+    "illegal function call after a user FUNCTION returned in the same statement",
 ];
 
 pub const CONTAINERS: [&str; 17] = [
@@ -416,6 +499,7 @@ fn failing(b: &mut B, fault: usize) -> Stmt {
         4 => b.s(K::Open { name: st("missing.txt"), mode: FileMode::Input, handle: 1, len: None }),
         5 => b.s(K::Call("Fail".into(), vec![])),
         6 => b.assign(var("X%"), call("FailF%", vec![num(1)])),
+        8 => b.assign(var("S$"), bin(BinOp::Add, call("Okf$", vec![num(1)]), builtin("LEFT$", vec![st("abc"), var("M%")]))),
         _ => b.s(K::Return(None)),
     }
 }
@@ -426,6 +510,7 @@ pub fn fault_program(fault: usize, container: usize, position: usize, handler: u
     if handler == 1 && matches!(fault, 4 | 7) {
         return None;
     }
+    // (fault 8 is repaired like fault 3: M% = 1)
     // RESUME label out of a subprogram is outside the reference
     let fault_in_sub = matches!(fault, 5 | 6) || matches!(container, 7 | 8);
     if handler == 3 && fault_in_sub {
@@ -448,6 +533,8 @@ pub fn fault_program(fault: usize, container: usize, position: usize, handler: u
         b.assign(var("K%"), num(1)),
         b.assign(var("IX%"), num(5)),
         b.assign(var("M%"), num(-1)),
+        // a module-level variable that is not shared: it reads 0 if execution continues in a foreign context
+        b.assign(var("NS%"), num(7)),
     ];
     if module_end {
         // the handler comes first and is jumped over
@@ -572,7 +659,7 @@ pub fn fault_program(fault: usize, container: usize, position: usize, handler: u
     }
     if !module_end {
     main.push(b.s(K::Label("After".into())));
-    main.push(b.print(vec![st("done"), builtin("ERR", vec![]), var("W%"), var("X%")]));
+    main.push(b.print(vec![st("done"), builtin("ERR", vec![]), var("W%"), var("X%"), var("NS%")]));
     main.push(b.s(K::End));
     // the handler
     main.push(b.s(K::Label("H".into())));
@@ -601,6 +688,11 @@ pub fn fault_program(fault: usize, container: usize, position: usize, handler: u
         let body = vec![b.print(vec![st("fail in")]), b.assign(var("Q%"), bin(BinOp::Div, num(1), var("Z%"))), b.print(vec![st("fail out")])];
         let id = b.id();
         subs.push(SubDef { id, name: "Fail".into(), is_function: false, params: vec![], body, is_static: false });
+    }
+    if fault == 8 {
+        let body = vec![b.print(vec![st("okf")]), b.assign(var("Okf$"), st("x"))];
+        let id = b.id();
+        subs.push(SubDef { id, name: "Okf$".into(), is_function: true, params: vec![Param { name: "P%".into(), ty: None, is_array: false }], body, is_static: false });
     }
     if fault == 6 {
         let body = vec![b.assign(var("FailF%"), bin(BinOp::Div, num(8), var("Z%"))), b.print(vec![st("failf out")])];
